@@ -42,10 +42,32 @@ func c13build(kind int) *c13archive {
 		size int
 	}
 	var specs []spec
-	switch kind % 3 {
-	case 0:
+	switch {
+	case kind >= 3:
+		// seeded archives (thorough): mixed sizes, at most two entries beyond the small buffer
+		r := rand.New(rand.NewSource(int64(kind) * 7919))
+		big := 0
+		n := 5 + r.Intn(11)
+		for i := 0; i < n; i++ {
+			size := []int{0, 1, 100, 513, 2000, 5000, 151 << 10, 300 << 10}[r.Intn(8)]
+			if size > 150<<10 {
+				if big >= 2 {
+					size = 700
+				}
+				big++
+			}
+			name := fmt.Sprintf("r%d", i)
+			if r.Intn(3) == 0 {
+				name = "dir/" + name
+			}
+			specs = append(specs, spec{name, false, size})
+		}
+		if r.Intn(2) == 0 {
+			specs = append(specs, spec{"dir", true, 0})
+		}
+	case kind%3 == 0:
 		specs = []spec{{"d", true, 0}, {"d/small1", false, 100}, {"empty", false, 0}, {"d/mid", false, 2000}, {"big", false, 200 << 10}, {"d/sub/after", false, 700}, {"last", false, 1500}}
-	case 1:
+	case kind%3 == 1:
 		specs = []spec{{"x", false, 513}, {"y/z/deep", false, 1024}, {"y", true, 0}, {"big1", false, 160 << 10}, {"w", false, 1}, {"big2", false, 300 << 10}, {"tail", false, 40}}
 	default:
 		for i := 0; i < 24; i++ {
@@ -273,14 +295,14 @@ func c13cutPoints(a *c13archive, dense bool) []int {
 
 func c13cases(env *core.Env) []c13case {
 	var cs []c13case
-	archives := env.Pick(3, 3)
+	archives := env.Pick(3, 9)
 	for ai := 0; ai < archives; ai++ {
 		a := c13build(ai)
 		for _, cut := range c13cutPoints(a, env.Thorough()) {
 			for _, mode := range []string{"truncate", "readerror", "cancel"} {
 				cs = append(cs, c13case{Part: "cut", Archive: ai, Cut: cut, Mode: mode})
 			}
-			if ai == 2 { // all entries of this archive are small: only background writers touch the (held back) destination
+			if ai%3 == 2 && ai < 3 { // all entries of this archive are small: only background writers touch the (held back) destination
 				cs = append(cs, c13case{Part: "cut", Archive: ai, Cut: cut, Mode: "cancel", Gate: true}, c13case{Part: "cut", Archive: ai, Cut: cut, Mode: "readerror", Gate: true})
 			}
 		}
